@@ -11,6 +11,7 @@ from vlib.harness import V, derive_seed, run_shards
 from vlib.hjmodel import ACCEPT, LEVEL
 
 PROPERTY = 'C03'
+AMBIENT_PASS = True        # the same search once more under unusual ambient settings (vlib.run.AMBIENT_SETTINGS)
 RULE = ('complete competitions: (i) every decided state (finished / won / drawn) met by a breadth-first enumeration of all '
         'call sequences (n=2 depth 9/10, n=3 depth 6/8); (ii) card-driven plays: 2-4 athletes x 1-4 regular heights, each '
         'cell drawn from the legal attempt strings (o xo xxo xxx - x- xx- r xr xxr and empty; a shared per-height script '
@@ -22,6 +23,7 @@ RULE = ('complete competitions: (i) every decided state (finished / won / drawn)
         'standing, jump-off survivor first and participants ahead of the rest, best = greatest height cleared); '
         'non-trivial = a decided competition whose countback needs level 2 or 3, or that carries failures across a pass, or '
         'that went through a jump-off; distinct by (cards, heights)')
+RULE = RULE + '; one play in three reads the card / rankings / trial list after every call, one in three tries forbidden calls between the legal ones (they must leave no trace); besides decided states, a competition the cards show must be over (everybody retired after a clearance; a jump-off round complete with exactly one clearance) is judged while the library still reports it as running'
 ASSUMPTIONS = ['jump-off continuations stay inside the rule-conforming sub-domain the property names (every live participant '
                'attempts or retires at each jump-off height before the bar moves; no pass in a jump-off)']
 RULE = RULE + '; one play in four hands the bar heights over as floats on 1 cm steps'
